@@ -6,6 +6,7 @@ import (
 	"fmt"
 	"os"
 	"runtime/debug"
+	"runtime/pprof"
 	"strconv"
 	"strings"
 	"testing"
@@ -189,6 +190,7 @@ func Main(t *testing.T, w World) {
 	if v, ok := params["max_tape"]; ok {
 		maxTape = v
 	}
+	runTimeout := time.Duration(envU("VSIM_RUN_TIMEOUT_S", 0)) * time.Second
 	samples := int(envU("VSIM_SAMPLES", 0))
 	wantLines := os.Getenv("VSIM_LINES") != ""
 
@@ -203,7 +205,20 @@ func Main(t *testing.T, w World) {
 				os.Exit(2)
 			}
 		}
+		// a run that does not come back is build trouble of the simulator (a deadlock of the code
+		// under test is detected by the worlds themselves): say so quickly, with the stacks
+		var wd *time.Timer
+		if runTimeout > 0 {
+			wd = time.AfterFunc(runTimeout, func() {
+				fmt.Fprintf(os.Stderr, "WATCHDOG: run %d did not finish within %v\n", run, runTimeout)
+				pprof.Lookup("goroutine").WriteTo(os.Stderr, 1)
+				os.Exit(3)
+			})
+		}
 		w(rc)
+		if wd != nil {
+			wd.Stop()
+		}
 		tape.CloseStream()
 		Active = nil
 		res.TapeLen = tape.Len()
